@@ -914,12 +914,16 @@ static int apply_patch(cJSON *object, const cJSON *patch, const cJSON_bool case_
             cJSON_free(value);
             value = NULL;
 
-            /* the string "value" isn't needed */
+            /* the string "value" isn't needed (and is not ours to free if it is a constant key) */
             if (object->string != NULL)
             {
-                cJSON_free(object->string);
+                if (!(object->type & cJSON_StringIsConst))
+                {
+                    cJSON_free(object->string);
+                }
                 object->string = NULL;
             }
+            object->type &= ~cJSON_StringIsConst;
 
             status = 0;
             goto cleanup;
@@ -963,12 +967,16 @@ static int apply_patch(cJSON *object, const cJSON *patch, const cJSON_bool case_
             cJSON_free(value);
             value = NULL;
 
-            /* the document has no name */
+            /* the document has no name (a constant key is not ours to free) */
             if (object->string != NULL)
             {
-                cJSON_free(object->string);
+                if (!(object->type & cJSON_StringIsConst))
+                {
+                    cJSON_free(object->string);
+                }
                 object->string = NULL;
             }
+            object->type &= ~cJSON_StringIsConst;
 
             status = 0;
             goto cleanup;
